@@ -1,7 +1,7 @@
 """PIT-specific analyses shared by C01, C04, C08, C11, C12."""
 from __future__ import annotations
 
-from typing import Dict, List, Optional, Tuple
+from typing import Dict, List, Optional, Set, Tuple
 
 from . import poly
 from .anchor import AnchorError, AnchorEval, E, Mat, S, Vec, matvec_alive
@@ -251,6 +251,25 @@ def _const_value(repo: Repo, ci: ClassInfo, term: Term, init: FunctionInfo):
                 raise AnchorError(f'{mc[1]}: return paths disagree')
         return first
     return AnchorEval({}).value(term)
+
+
+def nonpersistent_buffers(repo: Repo, ci: ClassInfo) -> Set[str]:
+    """Buffers registered with persistent=False anywhere in the constructor chain: they are
+    buffers for nn.Module but are NOT part of the state_dict."""
+    out: Set[str] = set()
+    for c in repo.mro(ci):
+        if not isinstance(c, ClassInfo):
+            continue
+        for m in c.methods.values():
+            for p in paths(repo, m):
+                for e in p.calls():
+                    mc = method_call(e.data[0])
+                    if mc and mc[0] == SELF and mc[1] == 'register_buffer' and mc[2] and \
+                            mc[2][0][0] == 'const':
+                        pers = dict(mc[3]).get('persistent', mc[2][2] if len(mc[2]) > 2 else None)
+                        if pers is not None and pers != ('const', True):
+                            out.add(mc[2][0][1])
+    return out
 
 
 def storage_kinds(repo: Repo, ci: ClassInfo, _depth: int = 0) -> Dict[str, str]:
